@@ -34,9 +34,15 @@ type caseC13 struct {
 	// 6 WriteTo of the shared will 7 String of the shared will 8 accessors of the shared will
 	Ops  [][]int `json:"ops"`
 	Reps int     `json:"reps"`
+	// Decoded: the shared packet is not the built one but what ReadPacket
+	// returns for its encoding (decoders may leave state bound to it).
+	Decoded bool `json:"decoded,omitempty"`
+	// Private: frames for the "ReadPacket on a private stream" operation
+	// (taken round-robin); empty = the shared packet's own encoding.
+	Private []Hex `json:"private,omitempty"`
 }
 
-var c13OpNames = []string{"WriteTo", "String", "Dump", "WellFormed", "Accessors", "ReadPacket(private)", "will.WriteTo", "will.String", "will.Accessors", "Dump(yielding writer)", "WriteTo(yielding writer)"}
+var c13OpNames = []string{"WriteTo", "String", "Dump", "WellFormed", "Accessors", "ReadPacket(private)", "will.WriteTo", "will.String", "will.Accessors", "Dump(yielding writer)", "WriteTo(yielding writer)", "WriteTo(failing writer)"}
 
 // yieldWriter copies what it is given, yielding the processor before and
 // after, like a connection or a locked log writer would.
@@ -59,6 +65,20 @@ func checkC13(c caseC13) (sig, msg string) {
 	if werr != nil {
 		return "harness", "sequential WriteTo failed: " + werr.Error()
 	}
+	if c.Decoded {
+		q, err := mq.ReadPacket(bytes.NewReader(seq))
+		if err != nil {
+			return "", "" // not decodable: nothing to share
+		}
+		p = q
+		seq, _, _ = api.Encode(p)
+	}
+	privateFrame := func(g, k int) []byte {
+		if len(c.Private) == 0 {
+			return seq
+		}
+		return c.Private[(g+k)%len(c.Private)]
+	}
 	var will *mq.Publish
 	var willSeq []byte
 	if cp, ok := p.(*mq.Connect); ok && cp.Will() != nil {
@@ -79,7 +99,7 @@ func checkC13(c caseC13) (sig, msg string) {
 					}
 				}()
 				<-start
-				for _, op := range ops {
+				for k, op := range ops {
 					switch op {
 					case 0:
 						var buf bytes.Buffer
@@ -98,7 +118,10 @@ func checkC13(c caseC13) (sig, msg string) {
 					case 4:
 						_ = api.Observe(p)
 					case 5:
-						_, _ = mq.ReadPacket(bytes.NewReader(seq))
+						_, _ = mq.ReadPacket(bytes.NewReader(privateFrame(g, k)))
+					case 11:
+						fw := &guard.ScriptWriter{Accept: len(seq) / 2, Err: &guard.InjectedError{ID: g}}
+						_, _ = p.WriteTo(fw)
 					case 9:
 						mq.Dump(&yieldWriter{}, p)
 					case 10:
@@ -175,14 +198,17 @@ func TestC13(t *testing.T) {
 
 	r.Rapid(t, "schedules", vf.N(400, 160000), func(t *rapid.T) {
 		typ := uint8(rapid.IntRange(1, 15).Draw(t, "type"))
-		if rapid.IntRange(0, 3).Draw(t, "connect") == 0 {
+		switch rapid.IntRange(0, 5).Draw(t, "connect") {
+		case 0:
 			typ = model.CONNECT
+		case 1, 2:
+			typ = model.PUBLISH
 		}
 		m := genC01(t, typ)
 		plan := drawPlan(t, &m)
 		g := rapid.IntRange(2, 8).Draw(t, "goroutines")
 		c := caseC13{ModelGob: packModel(m), Model: m.String(), Plan: plan, Reps: 5}
-		opset := []int{0, 1, 2, 3, 4, 5, 9, 10}
+		opset := []int{0, 1, 2, 3, 4, 5, 5, 9, 10, 11}
 		if m.Will != nil {
 			opset = append(opset, 6, 7, 8)
 		}
@@ -198,13 +224,33 @@ func TestC13(t *testing.T) {
 				}
 			}
 		}
+		c.Decoded = rapid.Bool().Draw(t, "decoded")
+		if rapid.Bool().Draw(t, "privateframes") {
+			n := rapid.IntRange(1, 3).Draw(t, "nprivate")
+			for i := 0; i < n; i++ {
+				f, _ := genHostileFrame(t)
+				switch rapid.IntRange(0, 3).Draw(t, "privatekind") {
+				case 0:
+					_, f, _, _ = genValidFrame(t, true)
+				case 1, 2:
+					f = genMisplacedProperty(t)
+				}
+				if len(f) > 2048 {
+					f = f[:2048]
+				}
+				c.Private = append(c.Private, f)
+			}
+		}
 		announce(c)
 		sig, msg := checkC13(c)
 		class := typeName(typ)
+		if c.Decoded {
+			class += "/decoded"
+		}
 		if m.Will != nil {
 			class += "/shared-will"
 		}
-		r.Case(vf.FPs(c.ModelGob, fmt.Sprint(c.Ops)), hasWrite && hasOther, class, func() interface{} {
+		r.Case(vf.FPs(c.ModelGob, fmt.Sprint(c.Ops, c.Decoded, c.Private)), hasWrite && hasOther, class, func() interface{} {
 			names := make([][]string, len(c.Ops))
 			for i, ops := range c.Ops {
 				for _, o := range ops {
